@@ -294,6 +294,10 @@ class TrajectoryStore:
         created: datetime | None = None
         """Creation time global attribute value."""
 
+        file_species: list[list[Species] | None] | None = None
+        """For merged stores, the species dimension of each constituent NetCDF
+        file (the inputs of a merge need not have recorded the same species)."""
+
     active_in_thread: int | None = None
     """Thread ID of active TrajectoryStore instance, if any. Multi-threaded
     access is not allowed. This attribute is used to check for this."""
@@ -1474,8 +1478,10 @@ class TrajectoryStore:
             if k[0] != '_':
                 groups[k] = [ds.groups[k] for ds in dataset]
 
-        # Retrieve species actually used in the NetCDF files.
-        species = self._retrieve_nc_species_values(dataset[0])
+        # Retrieve species actually used in the NetCDF files. Each file has
+        # its own species dimension, so keep them per file for reading.
+        file_species = [self._retrieve_nc_species_values(ds) for ds in dataset]
+        species = file_species[0]
 
         return TrajectoryStore.NcFiles(
             path=nc_files,
@@ -1484,6 +1490,7 @@ class TrajectoryStore:
             traj_dim=traj_dim,
             traj_var=traj_var,
             species=species,
+            file_species=file_species,
             groups=groups,
             size_index=list(itertools.accumulate([len(td) for td in traj_dim])),
             title=title,
@@ -1649,6 +1656,12 @@ class TrajectoryStore:
                 group_index = index - nc_files.size_index[file_index]
             group = nc_files.groups[fs_name][file_index]
 
+            # Species dimension of the file we are reading from (per file for
+            # a merged store).
+            species = nc_files.species
+            if nc_files.file_species is not None:
+                species = nc_files.file_species[file_index]
+
             # Read data from NetCDF variables.
             for name, field in fs.items():
                 if name not in group.variables:
@@ -1660,7 +1673,7 @@ class TrajectoryStore:
                     group_index,
                     name,
                     field,
-                    nc_files.species or [],
+                    species or [],
                 )
                 data[name] = val
                 if Dimension.POINT in field.dimensions and npoints is None:
